@@ -102,7 +102,56 @@ def make_motif(a, fs, rng):
     d, s = rng.choice(files)
     data = fs.entries[d][s][1]
     steps = []
-    first = rng.choice(["copy-same-name", "replace-same-size", "delete", "delete", "move-disk", "empty-disk"])
+    first = rng.choice(["copy-same-name", "replace-same-size", "delete", "delete", "move-disk", "empty-disk", "silent+delete"])
+    if first == "silent+delete":
+        # one sync has to deal at once with a silently corrupted synced block and a pending deletion on another disk of the
+        # same stripe (with enough parity it repairs the block on the fly and must still produce the parity of what remains)
+        if len(a.disks) < 2:
+            return []
+        hold = {}
+
+        def g2():
+            from .. import dmg
+            c_ = a.load_content()
+            n2i = {nm.encode(): i for i, nm in enumerate(a.disk_names)}
+            cands = []
+            for pos, ents in c_.stripe_map().items():
+                fe = [e for e in ents if e[1] == "file" and e[4] == cnt.BLK]
+                if len({e[0] for e in fe}) >= 2:
+                    cands.append(fe)
+            rng.shuffle(cands)
+            for fe in cands[:rng.randint(1, 3)]:
+                e1, e2 = rng.sample(fe, 2)
+                if e1[0] == e2[0]:
+                    continue
+                d1_, d2_ = n2i[c_.disk_name(e1[0])], n2i[c_.disk_name(e2[0])]
+                f1, f2 = e1[2], e2[2]
+                if f2.sub not in fs.entries[d2_] or fs.entries[d2_][f2.sub][0] != "file" or fs.links_of(d2_, f2.sub):
+                    continue
+                p1 = fs.path(d1_, f1.sub)
+                try:
+                    st_ = os.lstat(p1)
+                    with open(p1, "rb") as fh:
+                        orig = fh.read()
+                except OSError:
+                    continue
+                if dmg.damage_file_block(a, c_, f1, e1[3], rng, "byte") == "ok":
+                    hold.setdefault("heal", []).append((p1, orig, st_.st_atime_ns, st_.st_mtime_ns))
+                    fs.remove(d2_, f2.sub)
+
+        def g3():
+            for (p1, orig, at_, mt_) in reversed(hold.get("heal", [])):
+                try:
+                    with open(p1, "wb") as fh:
+                        fh.write(orig)
+                    os.utime(p1, ns=(at_, mt_))
+                except OSError:
+                    pass
+        steps.append(("cmd", "sync", ["-E", "-Z"]))
+        steps.append(("fs", g2, "silent corruption of a synced block + deletion of a file of another disk in the same stripe"))
+        steps.append(("cmd", "sync", ["-E", "-Z"]))
+        steps.append(("fs", g3, "harness damage undone"))
+        return steps
     if first == "empty-disk":
         # a whole disk loses everything while its deletions are still pending across a partial / killed sync; half of the
         # time the disk held one big file reaching further into the parity than every other disk
@@ -217,11 +266,11 @@ def run_history(case):
                 except (OSError, KeyError):
                     pending = []
                 continue
-            if k < 0.33:
+            if scripted is None and k < 0.33:
                 ops = scen.mutate(fs, rng, rng.randint(1, 5), hostile=0.1)
                 hist.append(("fs", len(ops)))
                 continue
-            if k < 0.35:
+            if scripted is None and k < 0.35:
                 # position holes: empty a disk, sync, drop it from the configuration; or add a new disk
                 if len(a.disks) >= 2 and rng.random() < 0.6:
                     d = rng.choice(a.disks)
